@@ -18,6 +18,7 @@ type PropSel struct {
 	Pkg   string `json:"pkg"`
 	Funcs string `json:"funcs"` // regexp on contract key
 	Kinds string `json:"kinds"` // regexp on obligation kind ("" = all)
+	Names string `json:"names"` // optional regexp that the obligation name must match (find)
 }
 
 type BoundedDef struct {
@@ -187,6 +188,7 @@ func runProperty(ld *Loader, verif, prop, tier, dir string, timeout, workers int
 	}
 	var results []*FuncResult
 	kindRe := map[*FuncResult][]*regexp.Regexp{}
+	nameRe := map[*FuncResult][]*regexp.Regexp{}
 	seen := map[string]*FuncResult{}
 	csrc := map[string]string{}
 	var assumptions []string
@@ -206,6 +208,10 @@ func runProperty(ld *Loader, verif, prop, tier, dir string, timeout, workers int
 		if s.Kinds != "" {
 			kre = regexp.MustCompile("^(" + s.Kinds + ")$")
 		}
+		var nre *regexp.Regexp
+		if s.Names != "" {
+			nre = regexp.MustCompile(s.Names)
+		}
 		add := func(key string, mk func() *FuncResult) {
 			id := s.Pkg + " " + key
 			fr, ok := seen[id]
@@ -215,6 +221,7 @@ func runProperty(ld *Loader, verif, prop, tier, dir string, timeout, workers int
 				results = append(results, fr)
 			}
 			kindRe[fr] = append(kindRe[fr], kre)
+			nameRe[fr] = append(nameRe[fr], nre)
 		}
 		matched := 0
 		for _, key := range p.Contracts.Order {
@@ -244,9 +251,11 @@ func runProperty(ld *Loader, verif, prop, tier, dir string, timeout, workers int
 		var keep []*Obligation
 		for _, o := range fr.Obls {
 			ok := false
-			for _, re := range kindRe[fr] {
+			for i, re := range kindRe[fr] {
 				if re == nil || re.MatchString(o.Kind) || o.Kind == "cover" || o.Kind == "subset" || o.Kind == "exists" {
-					ok = true
+					if nr := nameRe[fr][i]; nr == nil || nr.MatchString(o.Name) || o.Kind == "cover" || o.Kind == "subset" || o.Kind == "exists" {
+						ok = true
+					}
 				}
 			}
 			if ok {
